@@ -158,6 +158,7 @@ func (c *FnCtx) storeInner(comp Term, ref Term, val Term) (Term, storeDef) {
 type callSiteRes struct {
 	res   []Term
 	types []types.Type
+	post  *State // the state right after the call returned
 }
 
 type TV struct {
